@@ -41,6 +41,7 @@ type replayFile struct {
 	Model       map[string]string `json:"model,omitempty"`
 	RawOutput   string            `json:"solver_output"`
 	Replay      *replayOutcome    `json:"replay,omitempty"`
+	SMT         string            `json:"smt,omitempty"`
 }
 
 func (r *Report) emit(o checkOpts, toolErrs []string) int {
@@ -186,6 +187,11 @@ func (r *Report) writeReplay(o checkOpts, ob *Obligation) replayPath {
 		Goal: ob.GoalText, Kind: ob.Kind, Verdict: ob.Verdict, Solver: ob.Solver, SolverNotes: ob.SolverNotes, Path: ob.PathDesc, SMTFile: ob.SMTFile, RawOutput: truncate(ob.Model, 20000)}
 	if ob.Verdict == "sat" {
 		rf.Model = parseModel(ob.Model)
+	}
+	if ob.SMTFile != "" {
+		if q, err := os.ReadFile(ob.SMTFile); err == nil && len(q) < 2<<20 {
+			rf.SMT = string(q)
+		}
 	}
 	out := r.tryReplay(o, ob, &rf)
 	rf.Replay = out
